@@ -133,6 +133,7 @@ func (w *Whisper) openAndLockFile(filename string) error {
 		return err
 	}
 	w.file = file
+	verifYield("opened", filename)
 
 	if w.flock {
 		if err := syscall.Flock(int(file.Fd()), syscall.LOCK_EX); err != nil {
@@ -140,6 +141,7 @@ func (w *Whisper) openAndLockFile(filename string) error {
 			return fmt.Errorf("flock: %s %s", filename, err)
 		}
 	}
+	verifYield("locked", filename)
 	return nil
 }
 
